@@ -67,7 +67,27 @@ def nt_c11(tr):
     return has(tr, 1, lambda e: e[3] > 0 and e[6] == 0) and (has(tr, 9, lambda e: e[3] == 1) or has(tr, 11))
 
 
+import custom_checks as cc  # noqa: E402
+
 PROPS = {
+    "C18": {
+        "custom": cc.run_c18, "pre": [cc.pre_c18], "families": [], "monitors": [],
+        "theorems": ["C18_entry_survives", "C18_rt_independent"],
+        "restore": ["coq/theories/Gen/SrcFacts.v"],
+        "checker_cmd": "tools/srcfacts.py /repo -> Gen/SrcFacts.v ; make -C coq theories/Props/PinC18.vo ; coqc Print Assumptions ; xrt/run.sh (three cargo builds, three runs) ; diff against xrt/expected.txt",
+        "rule": "xrt/: one binary per runtime feature (tokio_runtime, async_runtime, smol_runtime) runs the same fixed list of timing-independent scenarios covering every spawn entry point, detach, join, consume, stop, last drop, stream end, restart, timeouts, timers, children, registry; one outcome line per scenario; non-trivial = a scenario that produced an outcome line on all three runtimes; the space is the fixed scenario list (enumerated completely)",
+        "trusted_extra": ["tools/srcfacts.py (regex reading of spawn entry points and spawners)", "drop semantics of tokio::task::JoinHandle and async_std::task::JoinHandle (detach on drop) and of smol::Task::detach", "xrt/ scenarios and their outcome printing"],
+        "assumptions": ["the property's truth lives in three external runtimes: the Coq theorems are about two small tables read from the source; that the runtimes behave as the tables say is validated by the cross-runtime run, not proved"],
+    },
+    "C19": {
+        "custom": cc.run_c19, "pre": [cc.pre_c19], "families": [], "monitors": [],
+        "theorems": ["C19_sound", "C19_current_table_ok"],
+        "restore": ["coq/theories/Gen/Sigs.v"],
+        "checker_cmd": "tools/sigs.py /repo | tools/gen_sigs_v.py -> Gen/Sigs.v ; make -C coq theories/Props/PinC19.vo (table_ok by vm_compute) ; coqc Print Assumptions ; typing/run.sh (cargo check of 101 catalogue programs)",
+        "rule": "typing/: 101 minimal programs, one per rule (R1 handler exists, R2 unit response on fire-and-forget paths, R3 restart only for restartable types, R4 stream only on a non-restartable builder, R5 recreate needs Default, no bypass through erased/weak handles) and per entry point that must enforce it, each ill-typed program paired with a well-typed twin; non-trivial = an ill-typed program that rustc rejects with the error that names the targeted bound; the catalogue is enumerated completely",
+        "trusted_extra": ["rustc's trait solver", "tools/sigs.py (text-level parser of the API's where-clauses) and tools/gen_sigs_v.py", "the hand-written rules table in Model/Typing.v"],
+        "assumptions": ["the theorem over programs of any length is about the bounds table; its link to rustc is through the finite catalogue only"],
+    },
     "C11": {
         "families": [("timeouts", 1200, 30000), ("faults", 200, 6000)],
         "monitors": ["C11"],
@@ -118,6 +138,22 @@ COMMON_NOTE = ("Trusted: Coq kernel; the hand-written model's fidelity (checked 
                "No axioms. Real-thread races inside external crates and real wake-ups beyond the sampled cases are outside.")
 
 MANIFEST_TEXT = {
+    "C18": {
+        "text": "Theorems C18_entry_survives / C18_rt_independent (Coq, by computation over two tables regenerated from the source on every run: what each of the 12 spawn entry points does with the task handle, "
+                "what dropping the handle does on each runtime's spawner): every entry point yields a surviving actor on every runtime. The tables' claim about the runtimes is validated on every run by executing 72 "
+                "timing-independent scenarios on tokio, async-std and smol and demanding identical outcome lines (and equality with the recorded outcomes). The theorems are thin because the truth lives in external runtimes; this is stated in the evidence.",
+        "note": COMMON_NOTE,
+        "technique": "Rocq/Coq proof over tables translated from the source (translator re-run every check) + cross-runtime differential execution",
+        "design_ref": "DESIGN.md section 6 C18",
+    },
+    "C19": {
+        "text": "Theorem C19_sound (Coq, induction over programs of any length): a program all of whose uses satisfy the bounds the API's signatures demand is safe w.r.t. the five rules and the no-bypass clause, "
+                "given C19_current_table_ok, which is re-proved by vm_compute against the bounds table regenerated from /repo's source on every run. The link to rustc is a catalogue of 101 programs (ill-typed / well-typed twins) "
+                "whose cargo-check verdicts must equal the expectation.",
+        "note": COMMON_NOTE,
+        "technique": "Rocq/Coq proof over a signature table translated from the source (translator re-run every check) + rustc verdicts on a catalogue",
+        "design_ref": "DESIGN.md section 6 C19",
+    },
     "C11": {
         "text": "Theorem C11_abandon_only_past_limit (Coq, simulation): on every execution the model accepts an invocation is abandoned only past its configured limit (never without a timeout, never on stream-attached actors) "
                 "and completes only within it. [partial] exactness (abandoned at t, not later), 'caller receives an error', 'no further effects' and 'state intact / actor failed' are enforced by model rules "
